@@ -86,7 +86,10 @@ func (h) Rule() string {
 		"truncated runes, lone continuation bytes, genuine U+FFFD, over-long and surrogate encodings, very long tokens, empty and " +
 		"blank texts; each text goes through all 24 bundled analyzers and the x-* wrappers of every other exported component; " +
 		"modelled filters additionally get explicit stage inputs (valid streams with gaps, keyword/ideographic flags, repeated terms; " +
-		"a malformed stream class) over their parameter grid; a case is non-trivial when it yields at least one token (an/tok/pipe) " +
+		"a malformed stream class) over their parameter grid; every analyzer value and filter chain is also used by 8 goroutines at once (conc/concp); " +
+		"the in-repo stemmers / normalisers / rune helpers run on words of their script (every affix under stems of 0..8 letters, accents, " +
+		"damaged and raw bytes; helpers also on invalid runes and on positions / counts outside their domain) against the definitions TRANSLATED " +
+		"from their source (stem/util); a case is non-trivial when it yields at least one token (an/tok/pipe) " +
 		"or has a non-empty stage input (flt/tf/doc), and distinct by its op line"
 }
 
